@@ -71,7 +71,7 @@ func c14LibUnits(payloads [][]byte, donl bool) (units [][]byte, heads []bool, er
 			pk := &codecs.H265Packet{}
 			pk.WithDONL(donl)
 			heads = append(heads, pk.IsPartitionHead(p))
-			if _, e := pk.Unmarshal(append([]byte(nil), p...)); e != nil {
+			if _, e := pk.Unmarshal(fw.Exact(p)); e != nil {
 				err = fmt.Errorf("payload %d: %w", i, e)
 				return
 			}
@@ -433,7 +433,7 @@ func c14Dec(c *fw.Ctx, i int) {
 		c.Evals(1)
 		return pk, err, true
 	}
-	pk, err, okp := parse(append([]byte(nil), pl...))
+	pk, err, okp := parse(fw.Exact(pl))
 	if !okp {
 		return
 	}
@@ -547,7 +547,7 @@ func c14Dec(c *fw.Ctx, i int) {
 	c.Count("payloads_parsed_exactly", 1)
 	// truncations
 	for cut := 0; cut < len(pl); cut++ {
-		in := append([]byte(nil), pl[:cut]...)
+		in := fw.Exact(pl[:cut])
 		pk, err, okp := parse(in)
 		if !okp {
 			return
